@@ -308,6 +308,7 @@ type Config struct {
 
 // Scheduler is the bubble root.
 type Scheduler struct {
+	diverged bool // lenient replay: the recorded choice list stopped fitting
 	cfg      Config
 	rng      *Rand
 	step     int
@@ -521,15 +522,22 @@ func (s *Scheduler) Run() {
 
 func (s *Scheduler) choose(run []*Tok) int {
 	n := len(run)
-	if s.cfg.Choices != nil {
+	if s.cfg.Choices != nil && !s.diverged {
 		if s.step < len(s.cfg.Choices) {
 			k := s.cfg.Choices[s.step]
-			if k >= n {
+			if k < n {
+				return k
+			}
+			if os.Getenv("VERIF_LENIENT_REPLAY") == "" {
 				s.fail(ExitDivergence, "DIVERGENCE: replay choice %d of %d runnable at step %d", k, n, s.step)
 			}
-			return k
+			// The recorded choices no longer fit the code (it changed since they were recorded): follow
+			// the seeded policy from here on. Still one exactly repeatable execution of this code.
+			s.diverged = true
+			s.tracef("D %d recorded choice %d of %d runnable: continuing with the seeded policy\n", s.step, k, n)
+		} else {
+			return 0
 		}
-		return 0
 	}
 	if n == 1 {
 		return 0
